@@ -70,6 +70,8 @@ func buildUniverse(root string) {
 func ScanCheck(args []string) {
 	fs := flag.NewFlagSet("scan-check", flag.ExitOnError)
 	edges := fs.String("edges", "", "rows emitted by TLC (Scan)")
+	shard := fs.Int("shard", 0, "shard")
+	shards := fs.Int("shards", 1, "shards")
 	fs.Parse(args)
 	rows, err := loadRows[scanRow](*edges)
 	if err != nil {
@@ -82,6 +84,9 @@ func ScanCheck(args []string) {
 	buildUniverse(root)
 	outcomes := map[string]int{}
 	for n, r := range rows {
+		if n%*shards != *shard {
+			continue
+		}
 		var paths []string
 		for i, p := range r.List {
 			abs := filepath.Join(append([]string{root}, p...)...)
